@@ -34,14 +34,16 @@ Proof.
     apply path_eqb_eq in H; subst; reflexivity.
 Qed.
 
-(* an output is declared not_time_dependent exactly when it is written as the first message's value *)
-Theorem ntd_iff_first : forall r, In r np_rows -> (r_ntd r = true <-> exists p, r_src r = First p).
+(* among the rows whose source is known, an output is declared not_time_dependent exactly when it is written as
+   the first message's value *)
+Theorem ntd_iff_first : forall r, In r np_rows -> r_src r <> Opaque ->
+  (r_ntd r = true <-> exists p, r_src r = First p).
 Proof.
-  intros r Hr. pose proof (proj1 (forallb_forall _ _) rows_ntd_ok r Hr) as H.
+  intros r Hr NO. pose proof (proj1 (forallb_forall _ _) rows_ntd_ok r Hr) as H.
   unfold np_row_ntd_ok in H. destruct (r_src r) as [p|p|].
   - apply negb_true_iff in H. rewrite H. split; [discriminate|intros [q E]; discriminate].
   - rewrite H. split; [eauto|reflexivity].
-  - apply negb_true_iff in H. rewrite H. split; [discriminate|intros [q E]; discriminate].
+  - congruence.
 Qed.
 
 Theorem declared_ntd_are_outputs : forall c k ks, In (c, ks) np_declared_ntd -> In k ks ->
